@@ -50,6 +50,8 @@ struct Job {
     /// indices (into the trait pieces) that get a per-trait dump; None = shared dump
     dumped: Option<Vec<usize>>,
     attr: String,
+    /// item text if it differs from the seed's (extra derive_ex lists in front)
+    item: Option<String>,
 }
 
 struct Res {
@@ -74,7 +76,7 @@ fn run_job(seeds: &[Seed], j: &Job) -> Res {
     let s = &seeds[j.seed];
     let mut problems = Vec::new();
     let base = expand::expand(j.entry, &s.attr, &s.item).and_then(|ts| expand::parse_output(ts, j.entry == Entry::Attr));
-    let dumped = expand::expand(j.entry, &j.attr, &s.item).and_then(|ts| expand::parse_output(ts, j.entry == Entry::Attr));
+    let dumped = expand::expand(j.entry, &j.attr, j.item.as_deref().unwrap_or(&s.item)).and_then(|ts| expand::parse_output(ts, j.entry == Entry::Attr));
     let (base, dumped) = match (base, dumped) {
         (Ok(a), Ok(b)) => (a, b),
         (Err(_), _) => return Res { problems, nontrivial: false, skipped: true },
@@ -166,9 +168,18 @@ pub fn run(ctx: &Ctx, rep: &mut Report) {
         let entries: &[Entry] = if s.is_impl { &[Entry::Attr] } else { &Entry::BOTH };
         for &entry in entries {
             // shared
-            jobs.push(Job { seed: si, entry, dumped: None, attr: format!("{}, dump", s.attr) });
+            jobs.push(Job { seed: si, entry, dumped: None, attr: format!("{}, dump", s.attr), item: None });
             if s.is_impl {
                 continue;
+            }
+            // two derive_ex lists of which only one carries the shared `dump`
+            if tpos.len() >= 2 && tpos.len() == ps.len() {
+                for cut in [1, tpos.len() - 1] {
+                    let g1: Vec<String> = (0..cut).map(|k| ps[tpos[k]].1.clone()).collect();
+                    let g2: Vec<String> = (cut..tpos.len()).map(|k| ps[tpos[k]].1.clone()).collect();
+                    jobs.push(Job { seed: si, entry, dumped: Some((0..cut).collect()), attr: format!("{}, dump", g1.join(", ")), item: Some(format!("#[derive_ex({})] {}", g2.join(", "), s.item)) });
+                    jobs.push(Job { seed: si, entry, dumped: Some((cut..tpos.len()).collect()), attr: g1.join(", "), item: Some(format!("#[derive_ex({}, dump)] {}", g2.join(", "), s.item)) });
+                }
             }
             let mut sets: Vec<Vec<usize>> = (0..tpos.len()).map(|k| vec![k]).collect();
             if tpos.len() >= 3 {
@@ -179,14 +190,14 @@ pub fn run(ctx: &Ctx, rep: &mut Report) {
             }
             for set in sets {
                 let attr: Vec<String> = ps.iter().enumerate().map(|(i, p)| match tpos.iter().position(|&x| x == i) { Some(k) if set.contains(&k) => with_dump(&p.1), _ => p.1.clone() }).collect();
-                jobs.push(Job { seed: si, entry, dumped: Some(set), attr: attr.join(", ") });
+                jobs.push(Job { seed: si, entry, dumped: Some(set), attr: attr.join(", "), item: None });
             }
         }
     }
     if let Some(p) = &ctx.replay {
         let v: serde_json::Value = serde_json::from_str(&std::fs::read_to_string(p).expect("replay file")).expect("replay json");
         let (a, i, e) = (v["case"]["attr"].as_str().unwrap_or("").to_string(), v["case"]["item"].as_str().unwrap_or("").to_string(), v["case"]["entry"].as_str().unwrap_or("").to_string());
-        jobs.retain(|j| j.attr == a && seeds[j.seed].item == i && j.entry.name() == e);
+        jobs.retain(|j| j.attr == a && j.item.as_deref().unwrap_or(&seeds[j.seed].item) == i && j.entry.name() == e);
     }
     rep.stats.states = 1 + seeds.len() as u64 + jobs.len() as u64;
     rep.stats.transitions = seeds.len() as u64 + jobs.len() as u64;
@@ -194,7 +205,7 @@ pub fn run(ctx: &Ctx, rep: &mut Report) {
     let res = par_map(&jobs, threads(), |_, j| run_job(&seeds, j));
     for (j, r) in jobs.iter().zip(res.iter()) {
         let s = &seeds[j.seed];
-        let text = format!("{} #[derive_ex({})] {}", j.entry.name(), j.attr, s.item);
+        let text = format!("{} #[derive_ex({})] {}", j.entry.name(), j.attr, j.item.as_deref().unwrap_or(&s.item));
         rep.case(&text, r.nontrivial);
         if r.skipped {
             rep.outcome("skipped:baseline-not-per-trait");
@@ -206,7 +217,7 @@ pub fn run(ctx: &Ctx, rep: &mut Report) {
             atoms.insert(format!("entry={}", j.entry.name()));
             atoms.insert(format!("placement={}", match &j.dumped { None => "shared".to_string(), Some(v) => format!("per-trait{:?}", v) }));
             atoms.insert(format!("origin={}", s.origin));
-            rep.violation(Violation { symptom: sym.clone(), atoms, what: format!("#[derive_ex({})] {} via {}: {}", j.attr, s.item.chars().take(120).collect::<String>(), j.entry.name(), what), detail: json!({"entry": j.entry.name(), "attr": j.attr, "item": s.item, "baseline_attr": s.attr}), standalone: None });
+            rep.violation(Violation { symptom: sym.clone(), atoms, what: format!("#[derive_ex({})] {} via {}: {}", j.attr, s.item.chars().take(120).collect::<String>(), j.entry.name(), what), detail: json!({"entry": j.entry.name(), "attr": j.attr, "item": j.item.as_deref().unwrap_or(&s.item), "baseline_attr": s.attr}), standalone: None });
         }
         if r.problems.is_empty() && r.nontrivial && rep.samples.len() < 4 {
             rep.sample(json!({"entry": j.entry.name(), "attr": j.attr, "item": s.item, "origin": s.origin}));
